@@ -16,6 +16,15 @@ TEXT = {
 
 META = "Metamorphic/differential bounded check on the real compiler: both programs of every pair are compiled by d2compiler.Compile inside the symbolic interpreter, a canonical projection of the two board trees (IDs, labels, shapes, attributes, styles, connections with endpoints/arrows/index, nested boards, element order) is built as a string with symbolic bytes, and z3 decides equality for every value of the symbolic names/values/choices within the bound. "
 TEXT.update({
+ "C47": ("Partial: only the step before subsetting is decided. Diagram.GetCorpus/GetNestedCorpus are executed on a board holding every text-bearing element kind with symbolic text, and every drawn text must be in the corpus the font subsetter receives. The subsetting of the font binary is not covered.", "4 C47"),
+ "C21": ("Object.SizeToContent executed with symbolic explicit width/height, content size and padding for 17 shape types; the solver proves the resulting size equals the request (or the documented exceptions). The automatic-fit half of the property is the subject of C27.", "4 C21"),
+ "C24": ("d2near.place executed on symbolic geometry (exact dyadic fixed-point lowering of float64) for all eight constant positions and ten label positions; disjointness from the main bounding box on the named sides and centring are discharged by the solver for every geometry in range.", "4 C24"),
+ "C30": ("Only the escaping kernels are decided: svg.EscapeText (through the real encoding/xml escaper) on every short ASCII string must yield pure character data that reads back as the input, and the ID/class-name encoders must stay inside attribute-safe alphabets. Whole-document well-formedness is outside the claim.", "4 C30"),
+ "C31": ("ThemeCSS, Theme.ApplyOverrides and ResolveThemeColor of the real code executed for every catalogue theme and every override set of the bound (choices are solver-enumerated; values concrete): every colour code must resolve to the override or the catalogue colour in each stylesheet rule. Weaker than the other checks: bounded enumeration, no symbolic data.", "4 C31"),
+ "C28": ("d2exporter.Export executed on graphs compiled from a styled template with the theme's special rules as symbolic booleans (every present and future combination) and a symbolic choice of which style attributes the user sets; the one-to-one and user-styles-win assertions are discharged on every path.", "4 C28"),
+ "C41": ("d2oracle edits with a symbolic operation, key and target board on a four-board diagram: the projections of all boards other than the addressed one are compared before and after on every path, for successful and refused edits.", "4 C36-C41"),
+ "C34": ("The real d2cli.render and resolveLinks are executed on board trees with symbolic board names (all short strings over a . / - plus reserved-looking words); drawing/writing of one board and os.RemoveAll are replaced by recording stand-ins, and every recorded path must be a distinct file strictly inside the directory derived from the output path. Found the path traversal through board names (repaired) and the index.svg clash (recorded).", "4 C34"),
+ "C48": ("The real d2cli.Write / xmain.AtomicWritePath / fmtCmd code is executed over a file-system model that replaces the os calls (engine-side function substitution), with the kill point a symbolic choice over all system-call steps and the mid-write states; on every path the target file must hold its complete old or complete new content. The check found that `d2 fmt` truncated files in place (repaired).", "4 C48"),
  "C42": ("d2lsp.GetCompletionItems executed symbolically on all short texts over a syntax alphabet and on keyword templates with a symbolic cursor line/column (a panic on any path is a counterexample), and GetBoardAtPosition on a multi-board file with a symbolic cursor against a reference walk. Reference ranges (GetRefRanges) are not covered.", "4 C42"),
  "C03": ("Parse -> Format -> Parse -> Format of the real parser and printer executed symbolically on every input up to the bound over a 16-character alphabet of D2 syntax: the formatted text must parse and be a fixpoint; found (and led to the repair of) keys ending in a dash.", "4 C03"),
  "C16": ("Style.Apply and d2compiler's reserved-key validation executed symbolically against reference domains written in the harness from the documentation: integer ranges on all short ASCII strings, opacity over a numeric alphabet incl. NaN/Inf spellings, the 150 CSS colour names in several spellings (and perturbed), # colours through the real regular expression, keyword and boolean attributes, sizes/positions/gaps/grid counts through the real compiler with the error position.", "4 C16"),
